@@ -13,6 +13,9 @@ def run(ctx):
     ctx.explanation = EXPL
     ctx.level = 'other'
     ctx.assumptions = ['attribute lists are sorted by index (documented precondition)']
+    from .. import schemespec
     for cfg, prog in ctx.programs().items():
         cursor.rule_hidden(ctx, cfg, prog)
         cursor.rule_total_precompute(ctx, cfg, prog)
+        ns = schemespec.rule_scheme(ctx, cfg, prog, which=['keygen', 'nondelegable_keygen', 'qualifykey', 'nondelegable_qualifykey', 'precompute', 'encrypt_precomputed', 'decrypt'])
+        ctx.floor('R-SCHEME path segments[%s]' % cfg, ns, 30)
